@@ -79,16 +79,10 @@ def gen_cases(sh):
                         yield q, A, B, None, None
     elif src == 'c05':
         sp_ = c05.space(tier, seed)
-        maxrows = 3 if tier == 'thorough' else 2
-        w6 = [['c%d' % i for i in range(1, 7)], ['d%d' % i for i in range(1, 7)], ['e%d' % i for i in range(1, 12)], ['f%d' % i for i in range(1, 6)]]
-        tabs = {'wide': list(qcheck.tables_upto(w6, 2)) + [w6 * 3],
-                'plain': list(qcheck.tables_upto(sp_['rows'], maxrows)) + [qcheck.long_table(sp_['rows'], 2)],
-                'named': list(qcheck.tables_upto(sp_['nrows'], maxrows + 1)) + [qcheck.long_table(sp_['nrows'], 3)],
-                'join': list(qcheck.tables_upto(sp_['jrows'], maxrows)) + [qcheck.long_table(sp_['jrows'][:4], 2)]}
-        tabs['join_empty_partner'] = [T for T in qcheck.tables_upto([[sp_['names'][0] + 'v', 'w'], ['x', 'y']], 3)]
+        tabs, Bsets = c05.tables_and_Bs(sp_, 3 if tier == 'thorough' else 2)
         for kind, q in sp_['qs'][lo:hi]:
             for names in ([sp_['names'], sp_['names'][::-1]] if kind == 'named' else [None]):
-                for B in (sp_['Bs'] if kind == 'join' else ([[[]], [[], ['q', 'p']], [['q', 'p'], []], [[], []]] if kind == 'join_empty_partner' else [None])):
+                for B in Bsets.get(kind, [None]):
                     for A in tabs[kind]:
                         yield q, A, B, names, None
     elif src == 'c07':
